@@ -2,7 +2,7 @@
   Every place where the iteration order of a hash container can reach the output of `acb`
   (src/app/approot.rs, src/portfolio/{splits,misc,cumulative_gains,summary}.rs,
   src/portfolio/bookkeeping/costs.rs), put together, with each order as an explicit parameter
-  (`Orders`), as repaired by the fixes for F-09a/b/c.  The per-security ledger
+  (`Orders`), as repaired by the fixes for F-09a/b/c/d/e.  The per-security ledger
   (`txs_to_delta_list`, C01) and the per-security summary (`make_summary_txs`, which sorts its
   affiliates and years itself) are arbitrary functions here: they contain no hash iteration whose
   order reaches their result.
@@ -16,8 +16,7 @@ open Acb.Costs Acb.Gains Acb.Splits
 
 structure Orders where
   affs : List Nat → List Nat      -- HashSet<Affiliate> in replace_global_security_splits
-  secs : List Nat → List Nat      -- HashMap<Security, _>: txs_by_sec, deltas_results_by_sec, sec_render_tables, deltas_by_sec
-  gains : List CG → List CG       -- security_gains.values()
+  secs : List Nat → List Nat      -- HashMap<Security, _>: txs_by_sec, deltas_results_by_sec, sec_render_tables, deltas_by_sec, security_gains
   years : List Int → List Int     -- a security's capital_gains_years_totals
   secSet : List Nat → List Nat    -- costs: security_set
   days : List Int → List Int      -- costs: max_costs_by_day.keys()
@@ -25,7 +24,6 @@ structure Orders where
 structure Orders.Ok (o : Orders) : Prop where
   affs : IsOrder o.affs
   secs : IsOrder o.secs
-  gains : IsOrder o.gains
   years : IsOrder o.years
   secSet : IsOrder o.secSet
   days : IsOrder o.days
@@ -78,7 +76,8 @@ def appOutput (o : Orders) (yearOf : Int → Int) (dflt : Nat) (ledger : Nat →
   else
     let res := resultOf o dflt ledger inp
     let tables := (printOrder o inp).map (fun s => (s, res s, footer full (tableGains yearOf (res s).toResult)))
-    let agg := aggGains o.gains o.years (completed yearOf (keys.map (fun s => (res s).toResult)))
+    -- `calc_cumulative_capital_gains` adds the securities up in name order (fix F-09e)
+    let agg := aggGains id o.years (completed yearOf ((printOrder o inp).map (fun s => (res s).toResult)))
     if totalCosts then
       match calcTotalCosts yearOf (allCostRows o dflt ledger inp) o.secSet o.days with
       | .ok c => .ok { tables := tables, aggregate := aggTable full agg,
